@@ -18,12 +18,12 @@ def outs : Forest → List (Nat × Outcome)
 
 /-- An event is about a node of the forest: a `Before` carries the function and the arguments of a call node,
 an `After` the function and the returned values of a node that returns. -/
-def IsEventOf (fr : Forest) : Event → Prop
-  | .before f a _ => (f, a) ∈ calls fr
+def IsEventOf (E : Engine) (fr : Forest) : Event → Prop
+  | .before f a s => (f, a) ∈ calls fr ∧ (E.stackCap ≠ some 0 → s.head? = some f)
   | .after f v => (f, Outcome.ret v) ∈ outs fr
   | .abort _ _ => True
 
-theorem aborts_isEventOf (E : Engine) (C : Cfg) (fl : Fail) (fr : Forest) : ∀ e ∈ aborts E C fl, IsEventOf fr e := by
+theorem aborts_isEventOf (E : Engine) (C : Cfg) (fl : Fail) (fr : Forest) : ∀ e ∈ aborts E C fl, IsEventOf E fr e := by
   intro e he
   unfold aborts at he
   split at he
@@ -33,18 +33,26 @@ theorem aborts_isEventOf (E : Engine) (C : Cfg) (fl : Fail) (fr : Forest) : ∀ 
   · simp at he
 
 theorem run_isEventOf (E : Engine) (C : Cfg) (fr : Forest) :
-    ∀ api st, ∀ e ∈ (run E C api st fr).1, IsEventOf fr e := by
+    ∀ api st, ∀ e ∈ (run E C api st fr).1, IsEventOf E fr e := by
   induction fr with
   | done => intro api st e he; simp [run] at he
   | call tail f args body out next ihb ihn =>
     intro api st
-    have lift_b : ∀ o e, IsEventOf body e → IsEventOf (.call tail f args body o next) e := by
+    have lift_b : ∀ o e, IsEventOf E body e → IsEventOf E (.call tail f args body o next) e := by
       intro o e h; cases e <;> simp_all [IsEventOf, calls, outs]
-    have lift_n : ∀ o e, IsEventOf next e → IsEventOf (.call tail f args body o next) e := by
+    have lift_n : ∀ o e, IsEventOf E next e → IsEventOf E (.call tail f args body o next) e := by
       intro o e h; cases e <;> simp_all [IsEventOf, calls, outs]
-    have self_b : ∀ o s, IsEventOf (.call tail f args body o next) (.before f args s) := by
-      intro o s; simp [IsEventOf, calls]
-    have self_a : ∀ v, IsEventOf (.call tail f args body (.ret v) next) (.after f v) := by
+    have self_b : ∀ o st, IsEventOf E (.call tail f args body o next) (.before f args (snapshot E (f :: st))) := by
+      intro o st
+      refine ⟨by simp [calls], fun hc => ?_⟩
+      unfold snapshot
+      cases hcap : E.stackCap with
+      | none => rfl
+      | some c =>
+        cases c with
+        | zero => exact absurd hcap hc
+        | succ c => rfl
+    have self_a : ∀ v, IsEventOf E (.call tail f args body (.ret v) next) (.after f v) := by
       intro v; simp [IsEventOf, outs]
     have hab := aborts_isEventOf E C
     have hnode : ∀ (nd : List Event × Option Fail), nd = (if inPlace E C api tail f then
@@ -69,7 +77,7 @@ theorem run_isEventOf (E : Engine) (C : Cfg) (fr : Forest) :
           match out with
           | .ret vals =>
             (b ++ evs ++ (if C.lsn f && !(E.tailJump && !C.host f && endsWithTail body) then [Event.after f vals] else []), none)
-          | .fail k => (b ++ evs, some ⟨k, true, st'⟩)) → ∀ e ∈ nd.1, IsEventOf (.call tail f args body out next) e := by
+          | .fail k => (b ++ evs, some ⟨k, true, st'⟩)) → ∀ e ∈ nd.1, IsEventOf E (.call tail f args body out next) e := by
       intro nd hnd e' he'
       subst hnd
       cases out <;> repeat' split at he'
